@@ -6,17 +6,19 @@
     schedule independence of both worker pools with an atomic increment (any number of workers, every
     schedule, every distance), finiteness of every run, existence of complete runs; REFUTED for the
     read-then-write increment of the original code (two witnesses).
+    Round 2: the distance > 1 pass is exact (C13_extended_edges_exact, for every kernel exact inside its band; the
+    model's plain LCS dynamic program is proved to be such a kernel: C13_lcs_table_optimal), its tie rule and the
+    absence of an abundance test are theorems, the weights are those of the one-difference graph; the data set
+    level (split by sample, union of the annotations over the samples, head flag and counts) is modelled and
+    proved; the float64 tests are proved equal to the rational ones under stated bounds (PropsFloat.v, Flocq).
     What is NOT proved (modelled and tied to the code by the correspondence run only):
-    - the distance > 1 kernel (FastLCSScore) is a plain LCS dynamic program in the model; that the extension
-      links exactly the pairs within the distance is not a theorem (property C09 owns the kernel; C13 only
-      demands schedule independence there, which is proved);
-    - float64 arithmetic of the weights and of the ratio test is modelled by exact rationals;
-    - the split of the data set by sample (buildSamples) and the union of the obiclean_mutation maps over
-      the samples are checked by the Python oracle only;
+    - that the REAL banded kernel obialign.FastLCSScore satisfies [kernel_exact_in_band] is the hypothesis of
+      C13_extended_edges_exact (property C09 checks it on every run; bounded theorems there);
+    - math.Pow(ratio, dist) for dist >= 2 is modelled by the exact rational power;
     - the tie between the Go mutex and [inc_kind = Atomic] is the race detector, not a proof. *)
 From Coq Require Import List NArith ZArith Bool Arith Sorting.Permutation.
 Import ListNotations.
-From OBI.C13 Require Import Model Proofs.
+From OBI.C13 Require Import Model Proofs Model2 Lcs Annot.
 Open Scope Z_scope.
 
 (** ** The one-difference kernel (transcription of obialign.D1Or0) *)
@@ -209,6 +211,141 @@ Theorem C13_lost_update_changes_status_refuted :
   map o_status (match model_graph star_nodes 1 4 with Some g => g | None => [] end) = [SI; SS; SH].
 Proof. exact lost_update_changes_status. Qed.
 
+(** ** Round 2 — distance > 1 (extendSimilarityGraph) *)
+(* the plain dynamic program of the model computes, for every pair of sequences, the lexicographic optimum
+   (longest common subsequence first, then the largest number of mismatch columns = the shortest alignment)
+   over ALL global alignments (inductive relation [ali]) *)
+Theorem C13_lcs_table_optimal : forall a b, lex_opt a b (last (lcs_table a b) (0, 0)).
+Proof. exact lcs_table_optimal. Qed.
+(* hence [lcs_d] is THE distance used by the code: alignment length - lcs of that alignment = its mismatch and
+   gap columns; the distance is a function of the pair, symmetric, 0 only for equal sequences, 1 only for
+   one-difference pairs *)
+Theorem C13_lcs_distance_exact : forall a b,
+  lcs_dist a b (lcs_d a b) /\ (forall d, lcs_dist a b d -> d = lcs_d a b) /\ lcs_dist b a (lcs_d a b).
+Proof.
+  exact (fun a b => conj (lcs_d_exact a b)
+          (conj (fun d H => lcs_dist_functional a b d _ H (lcs_d_exact a b)) (lcs_dist_sym a b _ (lcs_d_exact a b)))).
+Qed.
+Theorem C13_lcs_distance_small : forall a b d, lcs_dist a b d ->
+  0 <= d /\ (d = 0 -> a = b) /\ (d = 1 -> one_diff a b) /\ (a <> b -> ~ one_diff a b -> 2 <= d).
+Proof.
+  exact (fun a b d H => conj (lcs_dist_nonneg a b d H)
+          (conj (fun E => lcs_dist_zero a b (eq_ind d _ H 0 E))
+                (conj (fun E => lcs_dist_one a b (eq_ind d _ H 1 E)) (lcs_dist_far a b d H)))).
+Qed.
+(* the kernel of the model is exact inside (and outside) its band *)
+Theorem C13_model_kernel_exact_in_band : kernel_exact_in_band model_kernel.
+Proof. exact model_kernel_exact. Qed.
+(* [core] for EVERY kernel that is exact inside its band (hypothesis on obialign.FastLCSScore, checked by property
+   C09), extendSimilarityGraph links son i — a row left without edge by the first pass — to every LATER node j of
+   the sorted sample that is neither equal nor one difference apart and whose distance is at most --distance;
+   the edge carries that distance.  No abundance test: "later" is all that is required of the father. *)
+Theorem C13_extended_edges_exact : forall kern, kernel_exact_in_band kern ->
+  forall step l rows1 i j son father, 0 < step ->
+  length rows1 = length l -> nth_error l i = Some son -> nth_error l j = Some father ->
+  forall d,
+  (In (mke j gap gap (-1) d) (row_of (ext_rows_k kern step l rows1) i) <->
+   (row_of rows1 i = [] /\ (i < j)%nat /\ n_seq son <> n_seq father /\ ~ one_diff (n_seq son) (n_seq father) /\
+    lcs_dist (n_seq son) (n_seq father) d /\ d <= step)).
+Proof. exact extended_edges_exact. Qed.
+(* the extension pass of the model graph (the one compared with the code on every run) is that instance:
+   a sequence without more abundant one-difference neighbour is linked to every later node within the distance *)
+Theorem C13_model_extended_edges_exact : forall nodes step i j son father d,
+  let l := sort_nodes nodes in
+  1 < step -> nth_error l i = Some son -> nth_error l j = Some father ->
+  (In (mke j gap gap (-1) d) (row_of (ext_rows step l (all_rows l)) i) <->
+   (~ has_father l son /\ (i < j)%nat /\ n_seq son <> n_seq father /\ ~ one_diff (n_seq son) (n_seq father) /\
+    lcs_dist (n_seq son) (n_seq father) d /\ d <= step)).
+Proof. exact model_extended_edges_exact. Qed.
+(* tie rule: every edge of the extension goes to a later node of the stably sorted sample — at least as abundant,
+   NOT strictly more abundant — with 2 <= distance <= --distance and no position / characters *)
+Theorem C13_extension_father_at_least_as_abundant : forall nodes step i son e,
+  let l := sort_nodes nodes in
+  1 < step -> nth_error l i = Some son -> In e (row_of (ext_rows step l (all_rows l)) i) ->
+  exists father, nth_error l (e_father e) = Some father /\ (i < e_father e)%nat /\ n_count son <= n_count father /\
+    e = mke (e_father e) gap gap (-1) (e_dist e) /\ lcs_dist (n_seq son) (n_seq father) (e_dist e) /\ 2 <= e_dist e <= step.
+Proof. exact extension_father_at_least_as_abundant. Qed.
+(* ... so that between equally abundant sequences the direction of the link is the order of the records in the
+   loaded data set: the same two records in the other order exchange internal and head (witness; this is why
+   Load must return the records in a reproducible order — fix: commit recorded in known_findings.d/C13.json) *)
+Theorem C13_extension_tie_follows_input_order :
+  id_status_weight (model_graph_d tie_ab 2 1 1) = [(0, SI, 1); (1, SH, 1)] /\
+  id_status_weight (model_graph_d tie_ba 2 1 1) = [(1, SI, 1); (0, SH, 1)].
+Proof. exact extension_tie_follows_input_order. Qed.
+(* reweightSequences is not re-run after the extension: the weights written with --distance > 1 are exactly those
+   of the one-difference graph (in the witness above the head keeps weight 1) *)
+Theorem C13_extension_does_not_change_weights : forall nodes step p q,
+  option_map (map o_weight) (model_graph_d nodes step p q) = option_map (map o_weight) (model_graph nodes p q).
+Proof. exact extension_does_not_change_weights. Qed.
+
+(* REFUTED for the read-then-write increment also in the pool of extendSimilarityGraph (--distance 2): two workers, two
+   sequences two substitutions away from a common more abundant centre; one increment is lost and, with --ratio 0.25,
+   the centre is written singleton instead of head (the code takes the same lock there since the round 1 fix) *)
+Theorem C13_lost_update_distance2_refuted :
+  star2_rows1 = [[]; []; []] /\
+  prun ReadThenWrite star2_ext 2 lost_sched (pinit_gen (ext_queue star2_rows1) (fun _ => 0)) = Some lost_final_d2 /\
+  terminal ReadThenWrite star2_ext 2 lost_final_d2 /\
+  read_edges 3 lost_final_d2 = star2_ext /\
+  read_sons 3 lost_final_d2 = [0; 0; 1] /\ map (fun j => cnt j (concat star2_ext)) (seq 0 3) = [0; 0; 2] /\
+  map o_status (match finish_graph2 star2_l star2_rows1 [0; 0; 0] (merge_rows star2_rows1 (read_edges 3 lost_final_d2))
+                                    (read_sons 3 lost_final_d2) 1 4 with Some g => g | None => [] end) = [SI; SS; SS] /\
+  map o_status (match model_graph_d star2_nodes 2 1 4 with Some g => g | None => [] end) = [SI; SS; SH].
+Proof. exact lost_update_distance2. Qed.
+
+(** ** Round 2 — the data set: split by sample, union over the samples (CLIOBIClean, Mutation, annotateOBIClean) *)
+(* every sequence of the data set receives exactly one entry (status, weight) per sample of its merged_sample map *)
+Theorem C13_annots_cover_every_sample : forall ds step p q d, In d ds ->
+  length (annots ds step p q d) = length (d_counts d) /\
+  map sa_sample (annots ds step p q d) = map fst (d_counts d).
+Proof. exact annots_cover_every_sample. Qed.
+(* ... which is the status / weight / fathers of the node carrying its id in the graph of that sample *)
+Theorem C13_annots_per_sample : forall ds step p q d a,
+  In a (annots ds step p q d) <->
+  exists c, In (sa_sample a, c) (d_counts d) /\ annot_in_sample ds step p q (d_id d) (sa_sample a) = Some a.
+Proof. exact annots_per_sample. Qed.
+(* with distinct ids, that node is the sequence's OWN node of the count-sorted sample: it carries its id, its sequence
+   and its count in that sample, and the status written is the status of that node (status_of its remaining edges and
+   son counter: C13_status_exact / C13_filter_exact say what these mean) *)
+Theorem C13_annot_reads_own_node : forall ds step p q d s c,
+  NoDup (map d_id ds) -> In d ds -> lookupZ s (d_counts d) = Some c ->
+  exists g k o, model_graph_d (sample_nodes ds s) step p q = Some g /\
+    nth_error (sort_nodes (sample_nodes ds s)) k = Some (mkn (d_id d) (d_seq d) c) /\
+    nth_error g k = Some o /\ o_id o = d_id d /\ o_count o = c /\
+    o_status o = status_of (o_edges o) (o_sons o) /\
+    annot_in_sample ds step p q (d_id d) s =
+      Some (mksa s (o_status o) (o_weight o) (map (fun e => o_id (nth (e_father e) g dummy_onode)) (o_edges o))).
+Proof. exact annot_reads_own_node. Qed.
+(* obiclean_head iff head or singleton in at least one of its samples; obiclean_samplecount = number of its samples;
+   the three counts count the statuses and partition the samples *)
+Theorem C13_dataset_flags_exact : forall ds step p q d, In d ds ->
+  let l := annots ds step p q d in
+  (f_head (flags_of l) = true <-> exists a, In a l /\ (sa_status a = SH \/ sa_status a = SS)) /\
+  f_samplecount (flags_of l) = Z.of_nat (length (d_counts d)) /\
+  f_headcount (flags_of l) = count_status SH (map sa_status l) /\
+  f_internalcount (flags_of l) = count_status SI (map sa_status l) /\
+  f_singletoncount (flags_of l) = count_status SS (map sa_status l) /\
+  f_headcount (flags_of l) + f_internalcount (flags_of l) + f_singletoncount (flags_of l) = Z.of_nat (length (d_counts d)).
+Proof. exact dataset_flags_exact. Qed.
+(* the keys of obiclean_mutation are the union over the samples of the fathers of the sequence's node *)
+Theorem C13_mutation_keys_union : forall ds step p q d f,
+  In f (mutation_keys (annots ds step p q d)) <-> exists a, In a (annots ds step p q d) /\ In f (sa_fathers a).
+Proof. exact mutation_keys_union. Qed.
+
+(** ** Round 2 — obiiter.Load (as fixed): the data set handed to the graph construction does not depend on the order in
+      which the reader's workers deliver the batches *)
+Theorem C13_load_arrival_independent : forall (A : Type) (arr arr' : list (Z * list A)),
+  NoDup (map fst arr) -> Permutation arr arr' -> load arr = load arr'.
+Proof. exact (@load_arrival_independent). Qed.
+
+(* non-vacuity of the round 2 statements: two samples, the direction of the link flips between them *)
+Definition ex_ds : list dseq :=
+  [mkd 0 [97;99;103;116]%N [(0, 10); (1, 1)]; mkd 1 [97;99;99;116]%N [(0, 3); (1, 4)]; mkd 2 [97;97;97;97;97;97]%N [(1, 4)]].
+Example C13_dataset_nonvacuous :
+  map (fun d => (map sa_status (annots ex_ds 2 1 1 d), mutation_keys (annots ex_ds 2 1 1 d), f_head (flags_of (annots ex_ds 2 1 1 d)))) ex_ds
+  = [([SH; SI], [1], true); ([SI; SH], [0], true); ([SS], [], true)] /\
+  lcs_d [97;97;97;97]%N [97;99;99;97]%N = 2.
+Proof. split; vm_compute; reflexivity. Qed.
+
 (** non-vacuity: a sample with a star and a tie; a complete atomic run of 2 workers on it *)
 Definition ex_nodes : list node :=
   [mkn 0 [97;99;103;116]%N 10; mkn 1 [97;99;99;116]%N 3; mkn 2 [97;99;116]%N 3; mkn 3 [97;99;103;116;116]%N 1].
@@ -251,3 +388,19 @@ Print Assumptions C13_output_independent_of_workers_any_distance.
 Print Assumptions C13_runs_are_finite.
 Print Assumptions C13_status_exact.
 Print Assumptions C13_lost_update_changes_status_refuted.
+Print Assumptions C13_lcs_table_optimal.
+Print Assumptions C13_lcs_distance_exact.
+Print Assumptions C13_lcs_distance_small.
+Print Assumptions C13_model_kernel_exact_in_band.
+Print Assumptions C13_extended_edges_exact.
+Print Assumptions C13_model_extended_edges_exact.
+Print Assumptions C13_extension_father_at_least_as_abundant.
+Print Assumptions C13_extension_tie_follows_input_order.
+Print Assumptions C13_extension_does_not_change_weights.
+Print Assumptions C13_annots_cover_every_sample.
+Print Assumptions C13_annots_per_sample.
+Print Assumptions C13_dataset_flags_exact.
+Print Assumptions C13_mutation_keys_union.
+Print Assumptions C13_lost_update_distance2_refuted.
+Print Assumptions C13_annot_reads_own_node.
+Print Assumptions C13_load_arrival_independent.
